@@ -36,7 +36,8 @@ def references():
 LIN = {"lin1": 1, "lin2": 2, "lin3": 3}     # formula kernels (harness/cxx2lin.py): the specialised branches of linear.hpp
 
 
-RIMP = ("matmul", "identity", "affine_apply", "affine_compose", "translation", "scaling")     # harness/cxx2rimp.py
+RIMP = ("matmul", "identity", "affine_apply", "affine_compose", "translation", "scaling")
+RIMP_ALL = RIMP + ("lin_generic",)     # lin_generic (the N >= 4 branch of linear.hpp) belongs to C03     # harness/cxx2rimp.py
 
 
 OWN = ("copy_assign", "copy_ctor", "members")     # harness/cxx2own.py
@@ -59,7 +60,7 @@ def _translate(k):
     if k in OWN:
         from harness import cxx2own
         return cxx2own.translate(str(C.REPO), k), {"scalars": [], "arrays": []}
-    if k in RIMP:
+    if k in RIMP_ALL:
         from harness import cxx2rimp
         return cxx2rimp.translate(str(C.REPO), k)
     if k in LIN:
@@ -78,7 +79,7 @@ def _where(k):
     if k in OWN:
         from harness import cxx2own
         return cxx2own.KERNELS[k]
-    if k in RIMP:
+    if k in RIMP_ALL:
         from harness import cxx2rimp
         return cxx2rimp.KERNELS[k][1]
     return f"backend/transformer/linear.hpp at(), {LIN[k]}-D branch" if k in LIN else _where(k)
